@@ -203,7 +203,7 @@ func printResults(w *World, cfg *RunCfg, results []*FuncResult) int {
 				if cfg.Verbose {
 					for _, q := range o.Queries {
 						if q.Status != "unsat" && q.Status != "trivial" {
-							fmt.Printf("      path %v -> %s\n%s\n", q.Trace, q.Status, indent(trunc(q.Output, 3000), "      "))
+							fmt.Printf("      path %v -> %s\n%s\n", q.Trace, q.Status, indent(trunc(q.Output, 1500), "      "))
 							break
 						}
 					}
